@@ -101,7 +101,10 @@ func buildGroups(r *ev.Run) []*group {
 	splitSizes := []int{szMax, szSmall, szOver1}
 	splitScripts := [][]answer{{}, {{Kind: "timeout"}}, {ok, {Kind: "timeout"}}, {{Kind: "429"}}, {{Kind: "500"}}, {ok, {Kind: "short"}},
 		// the first request's two attempts both fail, the second one with a Retry-After (what happens to the rest of the batch?)
-		{{Kind: "timeout"}, {Kind: "503", RA: "59"}}, {{Kind: "503", RA: "59"}, {Kind: "503", RA: "59"}}, {{Kind: "429", RA: "1"}, {Kind: "429", RA: "1"}}}
+		{{Kind: "timeout"}, {Kind: "503", RA: "59"}}, {{Kind: "503", RA: "59"}, {Kind: "503", RA: "59"}}, {{Kind: "429", RA: "1"}, {Kind: "429", RA: "1"}},
+		// the first request fails for good at the transport level (both attempts time out): the later parts of the
+		// split batch are still owed their own requests
+		{{Kind: "timeout"}, {Kind: "timeout"}}}
 	if th {
 		splitSizes = []int{szMax, szAlmost, szSmall, szOver1}
 		splitScripts = scripts(2, faultKindsReduced(), []answer{{Kind: "timeout"}, {Kind: "429", RA: ""}, {Kind: "503", RA: "59"}, {Kind: "500"}})
